@@ -148,5 +148,5 @@ def run(case, ctx):
 
 def parts(tier):
     return [Part("decision_table", run, strategy=lambda t: expect_case(t), examples=(1600, 64000), shards=(8, 16),
-                 floors={"cell_lu0_ru0": 0.12, "cell_lu1_ru0": 0.12, "cell_lu0_ru1": 0.12, "cell_lu1_ru1": 0.12,
+                 floors={"cell_lu0_ru0": 0.07, "cell_lu1_ru0": 0.07, "cell_lu0_ru1": 0.07, "cell_lu1_ru1": 0.07,
                          "dup_only_among_unmatched": 0.03, "empty_side": 0.02})]
